@@ -1,6 +1,7 @@
 import B6.Driver.Common
 import B6.Model.Avl
 import B6.Spec.SortedMap
+import B6.Spec.IterClauses
 /-!
 Driver for C07.
 
@@ -28,7 +29,7 @@ its in-order contents equal the reference map, `len` equals its size; for iterat
 trace-level clauses of the property — returned keys increase (strictly for `Next`), the returned key is
 in the reference map now, no key that has been in the map ever since `begin` is skipped.
 -/
-open B6.Driver B6.Model.Avl B6.Spec
+open B6.Driver B6.Model.Avl B6.Spec B6.Spec.IterClauses
 namespace B6.Driver.C07
 
 /-! ### rendering / parsing -/
@@ -148,36 +149,19 @@ def parseIterAnswer (s : String) : Option IterAnswer := do
   let n : Option (Nat × Bool) ← if node == "nil" then some none else do some (some ((← node.toNat?), del == "1"))
   some ⟨ret, { started := started == "1", node := n, done := done == "1" }⟩
 
-/-! ### property trackers -/
+/-! ### property trackers
 
-/-- trace-level view of one iterator: last key it returned, keys in the map ever since `begin`, finished? -/
-structure Cur where
-  pos : Option Nat := none
-  owed : List Nat := []
-  dead : Bool := false
+`B6.Spec.IterClauses`: one `Cur` per iterator (last key returned, keys in the map ever since `begin`,
+finished?) and `clause`, the iterator clauses of the property on one answer — the function
+`B6.Props.C07.trace_ok` is about.  The payload the implementation reports must also be the current one. -/
 
-def posLt (pos : Option Nat) (x : Nat) : Bool := match pos with | none => true | some c => decide (c < x)
-def posLe (pos : Option Nat) (x : Nat) : Bool := match pos with | none => true | some c => decide (c ≤ x)
-
-/-- the iterator clauses of the property on one implementation answer; `none` = fine.
-`target` = the `Advance` key (`none` for `Next`). -/
 def iterClause (ref : SortedMap.SMap Nat) (c : Cur) (target : Option Nat) (ret : Option (Nat × Nat)) : Option String :=
-  if c.dead then none else
-  let tgt := target.getD 0
-  match ret with
-  | some (k, g) =>
-    if target.isNone && !posLt c.pos k then some "iter-order"
-    else if target.isSome && !(posLe c.pos k && decide (tgt ≤ k)) then some "iter-order"
-    else if SortedMap.lookup ref k != some g then some "iter-deleted"
-    else if c.owed.any (fun x => posLt c.pos x && decide (tgt ≤ x) && decide (x < k)) then some "iter-skipped"
-    else none
+  match clause (ref.map (·.1)) c target (ret.map (·.1)) with
+  | some cl => some cl
   | none =>
-    if c.owed.any (fun x => posLt c.pos x && decide (tgt ≤ x)) then some "iter-skipped" else none
-
-def Cur.update (c : Cur) (ret : Option (Nat × Nat)) : Cur :=
-  match ret with
-  | some (k, _) => { c with pos := some k }
-  | none => { c with dead := true }
+    match ret with
+    | some (k, g) => if !c.dead && SortedMap.lookup ref k != some g then some "iter-deleted" else none
+    | none => none
 
 /-! ### state -/
 
@@ -225,10 +209,10 @@ def stepIter (st : St) (i : Nat) (target : Option Nat) (impl : String) : St × V
       | some k => it.advance st.w.list.root k
     let m := renderIterAnswer st.w.list.root it' ok
     match parseIterAnswer impl with
-    | none => (st, if c.dead then .diff m else .propfail ("iter-" ++ impl))
+    | none => (st, .propfail ("iter-" ++ impl))       -- crash / hang / panic: never acceptable
     | some a =>
       let clause := iterClause st.ref c target a.ret
-      ({ st with w := { st.w with iters := st.w.iters.set i a.it }, curs := st.curs.set i (c.update a.ret) },
+      ({ st with w := { st.w with iters := st.w.iters.set i a.it }, curs := st.curs.set i (c.update (a.ret.map (·.1))) },
         verdictOf impl m clause)
   | _, _ => (st, .bad)
 
@@ -330,11 +314,11 @@ def stepIndexIter (st : St) (i : Nat) (target : Option Nat) (impl : String) : St
         | some k => it.advance lst.root k
       let m := renderIterAnswer lst.root it' ok
       match parseIterAnswer impl with
-      | none => (st, if c.dead then .diff m else .propfail ("iter-" ++ impl))
+      | none => (st, .propfail ("iter-" ++ impl))       -- crash / hang / panic: never acceptable
       | some a =>
         let ref := (SortedMap.lookup st.ixRef tok).getD []
         let clause := iterClause ref c target a.ret
-        ({ st with ixIters := st.ixIters.set i (some tok, a.it), ixCurs := st.ixCurs.set i (c.update a.ret) },
+        ({ st with ixIters := st.ixIters.set i (some tok, a.it), ixCurs := st.ixCurs.set i (c.update (a.ret.map (·.1))) },
           verdictOf impl m clause)
   | _, _ => (st, .bad)
 
@@ -353,8 +337,7 @@ def step (st : St) (op impl : String) : St × Verdict :=
     match k.toNat? with
     | some k =>
       let model := match st.w.step (.del k) with | some (w, _) => some w | none => none
-      let present := (SortedMap.lookup st.ref k).isSome
-      let st := if present then { st with curs := st.curs.map fun c => { c with owed := c.owed.filter (· != k) } } else st
+      let st := { st with curs := st.curs.map (·.onDelete k) }
       stepMut st impl (SortedMap.erase st.ref k) model
     | none => (st, .bad)
   | ["get", k] =>
@@ -372,7 +355,7 @@ def step (st : St) (op impl : String) : St × Verdict :=
   | ["begin"] =>
     let i := st.w.iters.length
     let m := s!"i={i}"
-    ({ st with w := { st.w with iters := st.w.iters ++ [{}] }, curs := st.curs ++ [{ owed := st.ref.map (·.1) }] },
+    ({ st with w := { st.w with iters := st.w.iters ++ [{}] }, curs := st.curs ++ [Cur.begin (st.ref.map (·.1))] },
       if impl == m then .ok else .diff m)
   | ["next", i] =>
     match i.toNat? with
@@ -399,7 +382,7 @@ def step (st : St) (op impl : String) : St × Verdict :=
         | none => (tok, it)
       let curs := (List.zip st.ixIters st.ixCurs).map fun ((tok, _), c) =>
         match tok with
-        | some t => if hit t then { c with owed := c.owed.filter (· != k) } else c
+        | some t => if hit t then c.onDelete k else c
         | none => c
       stepIndexMut st impl (refRemove st.ixRef k toks) (st.ix.remove k toks) iters curs
     | _, _ => (st, .bad)
@@ -419,7 +402,7 @@ def step (st : St) (op impl : String) : St × Verdict :=
       | some _ =>
         let m := s!"i={i}"
         let owed := ((SortedMap.lookup st.ixRef t).getD []).map (·.1)
-        ({ st with ixIters := st.ixIters ++ [(some t, {})], ixCurs := st.ixCurs ++ [{ owed := owed }] },
+        ({ st with ixIters := st.ixIters ++ [(some t, {})], ixCurs := st.ixCurs ++ [Cur.begin owed] },
           if impl == m then .ok else .diff m)
       | none =>
         let m := s!"i={i} empty"
